@@ -172,7 +172,17 @@ def _flow_scn(rng, g, ops, n_updates=1, with_mask=None, with_base=None, acc=Fals
     return lines
 
 
+QUICK_SCALE = float(os.environ.get("VERIF_QUICK_SCALE", "2.5"))
+
+
 def counts(tier, q, t):
+    """number of generated scenarios: thorough = t; quick = q scaled (the quick tier ran in 2-5 s per
+    property with the original counts, so it affords more scenarios; never more than thorough)"""
+    return t if tier == "thorough" else min(t, int(q * QUICK_SCALE))
+
+
+def counts_fixed(tier, q, t):
+    """unscaled (the pool / parallel checks run schedule injection and a thread-sanitizer build)"""
     return t if tier == "thorough" else q
 
 
@@ -1098,7 +1108,7 @@ def gen_pool(rng, tier):
         lines = ["grid pool"] + ["blocks %d %d %d %d" % c for c in combos[k:k + 300]]
         out.append(("k%d" % (k // 300), lines))
     # (b) API programs under injected schedules
-    nprog = counts(tier, 70, 600)
+    nprog = counts_fixed(tier, 70, 600)
     windows = [1, 2, 3, 4, 5, 6, 7, 8]
     for k in range(nprog):
         n = rng.choice([1, 1, 2, 2, 3, 4] if tier == "quick" else [1, 2, 3, 4, 6, 8, 12, 16])
@@ -1177,7 +1187,7 @@ def c11_runner(P, exe, model_ok, rng, tier, replay=None):
     else:
         rng2 = random_mod.Random(rng.random())
         scns = [s for s in corpus(P["id"]) + P["gen"](rng2, tier) if any(l.startswith("pool ") for l in s[1])]
-        scns = scns[: counts(tier, 40, 300)]
+        scns = scns[: counts_fixed(tier, 40, 300)]
     impl, notes, sans = run.run_harness(texe, scns, watchdog=P.get("watchdog", 20))
     seen = set()
     for r in sans:
@@ -1223,7 +1233,7 @@ _lvl("C11", "proof",
 
 def gen_parallel(rng, tier):
     out = []
-    for k in range(counts(tier, 90, 800)):
+    for k in range(counts_fixed(tier, 90, 800)):
         r = rng.random()
         hi = 9 if tier == "quick" else 16
         if r < 0.3:
@@ -1285,7 +1295,7 @@ def c10_runner(P, exe, model_ok, rng, tier, replay=None):
         scns = read_blocks(replay)
     else:
         rng2 = random_mod.Random(rng.random())
-        scns = (corpus(P["id"]) + P["gen"](rng2, tier))[: counts(tier, 40, 300)]
+        scns = (corpus(P["id"]) + P["gen"](rng2, tier))[: counts_fixed(tier, 40, 300)]
     impl, notes, sans = run.run_harness(texe, scns, watchdog=P.get("watchdog", 30))
     seen = set()
     tmap = dict(scns)
